@@ -139,6 +139,39 @@ def host_controls():
     expect("Tr_Host rejects --list changing the image (readonly)", "readonly" in fl(verd[4])[0], str(fl(verd[4])))
 
 
+def host_two_switch_controls():
+    """one invocation naming the target under two switches: the recorded run is accepted; a second save that WROTE over what the first had created is rejected"""
+    h = {"init": {"kind": "absent", "big": False, "files": []}, "cmds": [{"tool": "asm", "sw": "bin", "sw2": "cas", "app": False, "named": True, "new": [9], "srcn": 0}]}
+    r = hostrun.replay((0, h))
+    rs = [dict(copy.deepcopy(r), id=k) for k in range(3)]
+    rs[1]["events"][0]["hooks"].append({"ev": "Save", "exists": True, "sniffed": "", "wrote": True})      # the second save wrote as well
+    rs[2]["events"][0]["post"]["raw"] = rs[2]["events"][0]["post"]["raw"][:-1]    # what is at the path is neither of the two images
+    verd, _ = tlc.bulk("Tr_Host", rs, nproc=1, heap="4g")
+    fl = lambda v: [s["failed"] for s in v["steps"]]
+    expect("Tr_Host accepts --to_bin P --to_cas P as recorded", fl(verd[0]) == [[]], str(fl(verd[0])))
+    expect("Tr_Host rejects a second save that wrote over the first (allowed)", "allowed" in fl(verd[1])[0], str(fl(verd[1])))
+    expect("Tr_Host rejects a damaged image after two saves (allowed)", "allowed" in fl(verd[2])[0], str(fl(verd[2])))
+
+
+def include_controls():
+    from harness.props import c19
+    os.environ["VERIF_SCRATCH"] = tlc.OUT
+    S = lambda v: {"k": "s", "v": v, "inc": ""}
+    I = lambda n: {"k": "i", "v": 0, "inc": n}
+    ok = c19.model_one((0, {"a": [S(1), I("b")], "b": [I("c"), S(2)], "c": []}))
+    cyc = c19.model_one((3, {"a": [I("b")], "b": [I("a")], "c": []}))
+    rs = [dict(copy.deepcopy(ok), id=0), dict(copy.deepcopy(ok), id=1), dict(copy.deepcopy(ok), id=2), cyc, dict(copy.deepcopy(cyc), id=4)]
+    rs[1]["bin"] = list(reversed(rs[1]["bin"]))                                  # the statements came out in another order
+    rs[2]["files"]["c"] = [S(2)]                                                 # the included file held a statement that is not in the image
+    rs[4]["exit"], rs[4]["hasbin"], rs[4]["bin"] = 0, True, []                   # a cycle accepted
+    verd, _ = tlc.bulk("Tr_Include", [{k: v for k, v in x.items() if k != "stdout"} for x in rs], nproc=1)
+    expect("Tr_Include accepts the recorded expansion", verd[0]["failed"] == [], str(verd[0]))
+    expect("Tr_Include rejects a reordered image (spliced)", "spliced" in verd[1]["failed"], str(verd[1]))
+    expect("Tr_Include rejects a statement of an included file missing from the image", "spliced" in verd[2]["failed"], str(verd[2]))
+    expect("Tr_Include accepts the diagnostic for a cycle", verd[3]["failed"] == [], str(verd[3]))
+    expect("Tr_Include rejects an accepted cycle (rejected)", "rejected" in verd[4]["failed"], str(verd[4]))
+
+
 def session_controls():
     pool = [[" ORG $0E00\n", "S LDA #1\n", " RTS \n"], [" LDA #300\n"]]
     ev = sessionrun.run_history(pool, [1, 2, 1], "warm")
@@ -190,7 +223,7 @@ def c11_controls():
 
 
 if __name__ == "__main__":
-    for f in (asm_controls, tape_controls, disk_controls, host_controls, session_controls, pair_controls, c11_controls):
+    for f in (asm_controls, tape_controls, disk_controls, host_controls, host_two_switch_controls, include_controls, session_controls, pair_controls, c11_controls):
         try:
             f()
         except Exception as e:
